@@ -1622,9 +1622,11 @@ class SparseVector:
     def copy_like(self, other):
         if self.read_only: raise ValueError('assignment destination is read-only')
         dct = self.dct
-        if dct is other.dct: return
+        other_dct = other.dct
+        if dct is other_dct: return
+        if other_dct.__class__ is not dict: other_dct = other_dct.copy() # A view: evaluate before clearing (it may wrap the same data)
         dct.clear()
-        dct.update(other.dct)
+        dct.update(other_dct)
     
     def clear(self):
         if self.read_only: raise ValueError('assignment destination is read-only')
@@ -1690,10 +1692,14 @@ class SparseVector:
                     raise IndexError(
                         f'cannot broadcast {vd}-d array on to 1-d sparse array'
                     )
-                dct.clear()
                 if value.__class__ is SparseVector:
-                    dct.update(value.dct)
-                elif vd == 1:
+                    value_dct = value.dct
+                    if value_dct.__class__ is not dict: value_dct = value_dct.copy() # A view: evaluate before clearing
+                    dct.clear()
+                    dct.update(value_dct)
+                    return
+                dct.clear()
+                if vd == 1:
                     for i, j in enumerate(value):
                         if j: dct[i] = float(j)
                         elif i in dct: del dct[i]  
